@@ -394,6 +394,14 @@ type c17Submitter struct {
 	start    time.Time
 	scripts  map[string]c17Script
 	contacts []c17Contact
+	// requests that ended because their context was cancelled (log, instant)
+	cancelled []c17Contact
+}
+
+func (s *c17Submitter) sawCancel(logURL string) {
+	s.mu.Lock()
+	s.cancelled = append(s.cancelled, c17Contact{logURL, time.Since(s.start)})
+	s.mu.Unlock()
 }
 
 func (s *c17Submitter) SubmitToLog(ctx context.Context, logURL string, _ []ct.ASN1Cert, _ bool) (*ct.SignedCertificateTimestamp, error) {
@@ -403,6 +411,7 @@ func (s *c17Submitter) SubmitToLog(ctx context.Context, logURL string, _ []ct.AS
 	s.mu.Unlock()
 	if sc.outcome == c17Hang {
 		<-ctx.Done()
+		s.sawCancel(logURL)
 		return nil, ctx.Err()
 	}
 	t := time.NewTimer(sc.lat)
@@ -410,6 +419,7 @@ func (s *c17Submitter) SubmitToLog(ctx context.Context, logURL string, _ []ct.AS
 	select {
 	case <-t.C:
 	case <-ctx.Done():
+		s.sawCancel(logURL)
 		return nil, ctx.Err()
 	}
 	if sc.outcome == c17Err {
@@ -424,6 +434,7 @@ var c17Deadlines = []int{550, 1550, 2550, 4550, 7550}
 const c17Long = 3*3600*1000 + 550 // ms; longer than every scripted latency and every timer
 
 type c17Scenario struct {
+	shape    string // "chrome", "apple", "arbitrary" ("" for the fixed F10a scenarios, which are Chrome-shaped)
 	cfg      *c17Cfg
 	scripts  map[string]c17Script
 	deadline time.Duration
@@ -434,6 +445,7 @@ type c17Result struct {
 	err      error
 	retAt    time.Duration
 	contacts []c17Contact
+	cancelled []c17Contact
 	panicked string
 }
 
@@ -466,11 +478,38 @@ func c17RunGetSCTs(sc *c17Scenario, groups ctpolicy.LogPolicyData, start time.Ti
 	}
 	sub.mu.Lock()
 	res.contacts = append(res.contacts, sub.contacts...)
+	res.cancelled = append(res.cancelled, sub.cancelled...)
 	sub.mu.Unlock()
 	return res
 }
 
 func c17Ms(d time.Duration) int64 { return int64(d / time.Millisecond) }
+
+// c17FailedGroups reads the group names out of completenessError's text and renders them as " n id…" (sorted ids).
+func c17FailedGroups(err error, gid map[string]int) string {
+	if err == nil {
+		return " 0"
+	}
+	const pre, suf = "log-group(s) ", " didn't receive enough SCTs"
+	t := err.Error()
+	if !strings.HasPrefix(t, pre) || !strings.HasSuffix(t, suf) {
+		return " 0"
+	}
+	var ids []int
+	for _, n := range strings.Split(t[len(pre):len(t)-len(suf)], ", ") {
+		id, ok := gid[n]
+		if !ok {
+			id = 999
+		}
+		ids = append(ids, id)
+	}
+	sort.Ints(ids)
+	out := fmt.Sprintf(" %d", len(ids))
+	for _, i := range ids {
+		out += fmt.Sprintf(" %d", i)
+	}
+	return out
+}
 
 func c17RaceLine(sc *c17Scenario, res *c17Result) string {
 	c := sc.cfg
@@ -495,11 +534,31 @@ func c17RaceLine(sc *c17Scenario, res *c17Result) string {
 		set[a.LogURL] = true
 	}
 	ids := c.sortedIDs(set)
-	fmt.Fprintf(&sb, " D %d R %d %s %d", c17Ms(sc.deadline), c17Ms(res.retAt), verifkit.B(res.err != nil), len(ids))
+	fmt.Fprintf(&sb, " D %d R %d %s%s %d", c17Ms(sc.deadline), c17Ms(res.retAt), verifkit.B(res.err != nil), c17FailedGroups(res.err, c.gid), len(ids))
 	for _, i := range ids {
 		fmt.Fprintf(&sb, " %d", i)
 	}
 	return sb.String()
+}
+
+// failures of already recorded kinds are written at most c17KnownCap times per kind (the rest only counted), so that
+// verifkit's limit on F lines can never hide a failure of another kind
+const c17KnownCap = 15
+
+var (
+	c17KnownMu sync.Mutex
+	c17KnownN  = map[string]int{}
+)
+
+func c17FailCapped(out *verifkit.Out, kind, key, detail string) {
+	c17KnownMu.Lock()
+	c17KnownN[kind]++
+	n := c17KnownN[kind]
+	c17KnownMu.Unlock()
+	out.Count("class:fail-" + kind)
+	if n <= c17KnownCap {
+		out.Fail(key, detail)
+	}
 }
 
 // c17Oracle: the property evaluated on the real outputs of one GetSCTs call.
@@ -568,11 +627,67 @@ func c17Oracle(out *verifkit.Out, tag string, sc *c17Scenario, res *c17Result) {
 	} else {
 		out.Count("class:getscts-error")
 	}
+	// completion instant of each contacted log (what its script does if it is left alone)
+	first := map[string]time.Duration{}
+	for _, cc := range res.contacts {
+		if _, ok := first[cc.log]; !ok {
+			first[cc.log] = cc.at
+		}
+	}
+	cancelAt := map[string]time.Duration{}
+	for _, cc := range res.cancelled {
+		if _, ok := cancelAt[cc.log]; !ok {
+			cancelAt[cc.log] = cc.at
+		}
+	}
+	// SCTs handed to the code by instant t, among the members of g
+	answeredOK := func(g *ctpolicy.LogGroupInfo, t time.Duration) int {
+		n := 0
+		for u := range g.LogURLs {
+			at, ok := first[u]
+			if !ok || sc.scripts[u].outcome != c17OK {
+				continue
+			}
+			done := at + sc.scripts[u].lat
+			if ca, c := cancelAt[u]; c && ca < done {
+				continue
+			}
+			if done <= t {
+				n++
+			}
+		}
+		return n
+	}
+	// a request is cancelled (before the caller's own deadline) only when none of its groups still needs it; such a group
+	// holds its minimum (C17.cancel_only_when_unneeded + needs_accounting), so at least that many of its logs have answered
+	for u, at := range cancelAt {
+		if at >= sc.deadline {
+			continue
+		}
+		for _, g := range c.groups {
+			if g.LogURLs[u] && answeredOK(g, at) < g.MinInclusions {
+				out.Fail("cancelled-while-needed "+tag, fmt.Sprintf("request to %s cancelled at %d ms while group %q had only %d of %d SCTs | %s",
+					u, c17Ms(at), g.Name, answeredOK(g, at), g.MinInclusions, desc))
+			}
+		}
+	}
+	// liveness inside the region `liveness_partial` covers: Chrome / Apple shaped groups with every member in the session,
+	// no hanging log, no cancellation by the caller, every group keeps its minimum of succeeding members, and no group
+	// race can have ended unsuccessfully before its requests completed: a non-base group already has its minimum of
+	// answers at its last timer, or all its contacted succeeding logs have completed by then; for the base group the
+	// latter. There an error is a violation (not F10a).
+	if inLiveRegion(sc, first) {
+		out.Count("class:liveness-region")
+		if res.err != nil {
+			out.Fail("livenessregion "+tag, res.err.Error()+" | "+desc)
+			return
+		}
+	}
 	// liveness: the caller did not cancel (deadline far beyond every latency and timer) ...
 	if c17Ms(sc.deadline) == c17Long && res.err != nil {
 		// ... the returned set itself satisfies every group, yet an error is reported
 		if satisfied {
-			out.Fail("liveness returned-set-satisfies-policy-but-error "+tag, res.err.Error()+" | "+desc)
+			c17FailCapped(out, "liveness-returned-set", "liveness returned-set-satisfies-policy-but-error "+tag, res.err.Error()+" | "+desc)
 			return
 		}
 		// ... every log answers successfully and every group has enough members with positive weight
@@ -594,9 +709,54 @@ func c17Oracle(out *verifkit.Out, tag string, sc *c17Scenario, res *c17Result) {
 			}
 		}
 		if allOK && enough {
-			out.Fail("liveness all-logs-answer-but-error "+tag, res.err.Error()+" | "+desc)
+			c17FailCapped(out, "liveness-all-logs", "liveness all-logs-answer-but-error "+tag, res.err.Error()+" | "+desc)
 		}
 	}
+}
+
+// inLiveRegion: see c17Oracle.
+func inLiveRegion(sc *c17Scenario, first map[string]time.Duration) bool {
+	c := sc.cfg
+	if (sc.shape != "chrome" && sc.shape != "apple") || c17Ms(sc.deadline) != c17Long {
+		return false
+	}
+	for _, s := range sc.scripts {
+		if s.outcome == c17Hang {
+			return false
+		}
+	}
+	nums := parallelNums(c.data())
+	for _, g := range c.groups {
+		good := 0
+		for u := range g.LogURLs {
+			if g.LogWeights[u] <= 0 {
+				return false // a member outside the session
+			}
+			if sc.scripts[u].outcome == c17OK {
+				good++
+			}
+		}
+		if good < g.MinInclusions || len(g.LogURLs) == 0 {
+			return false
+		}
+		last := postInterval(len(g.LogURLs)-1, nums[g.Name], PostBatchInterval)
+		answered, allDone := 0, true
+		for u := range g.LogURLs {
+			at, ok := first[u]
+			if !ok || sc.scripts[u].outcome != c17OK {
+				continue
+			}
+			if at+sc.scripts[u].lat <= last {
+				answered++
+			} else {
+				allDone = false
+			}
+		}
+		if !(allDone || (!g.IsBase && answered >= g.MinInclusions)) {
+			return false
+		}
+	}
+	return true
 }
 
 func c17Scripts(r *verifkit.Rand, c *c17Cfg, allOK bool) map[string]c17Script {
@@ -630,7 +790,7 @@ func c17RaceCases(out *verifkit.Out, r *verifkit.Rand, n int) {
 		c.addGroup("Non-Google-operated", false, 1, []int{2}, nil)
 		c.addGroup(ctpolicy.BaseName, true, 2, []int{1, 2}, nil)
 		for _, lat := range []int{1900, 2500} {
-			sc := &c17Scenario{cfg: c, deadline: c17Long * time.Millisecond, scripts: map[string]c17Script{
+			sc := &c17Scenario{shape: "chrome", cfg: c, deadline: c17Long * time.Millisecond, scripts: map[string]c17Script{
 				c.logs[0]: {time.Duration(lat+1) * time.Millisecond, c17OK}, c.logs[1]: {time.Duration(lat+2) * time.Millisecond, c17OK}}}
 			var res *c17Result
 			c17Bubble(func() { res = c17RunGetSCTs(sc, c.data(), time.Now()) })
@@ -662,7 +822,7 @@ func c17RaceCases(out *verifkit.Out, r *verifkit.Rand, n int) {
 		}
 		scs := make([]*c17Scenario, callers)
 		for k := range scs {
-			scs[k] = &c17Scenario{cfg: c, scripts: c17Scripts(r, c, r.Intn(100) < 65), deadline: time.Duration(dl) * time.Millisecond}
+			scs[k] = &c17Scenario{shape: shape, cfg: c, scripts: c17Scripts(r, c, r.Intn(100) < 65), deadline: time.Duration(dl) * time.Millisecond}
 		}
 		results := make([]*c17Result, callers)
 		c17Bubble(func() {
